@@ -106,6 +106,13 @@ fn victim_inner(name: &str) -> Option<Victim> {
             let res = pending_raw(&s, "A");
             mk("A-results-only", s, "A", prev, vec![], res)
         }
+        // call results only, one of them a (long) service failure
+        "A-results-with-failure" => {
+            let s = Scen::new("v7", par(call("A", "g1", vec![], sc("u")), xor(call("A", "fail2longername", vec![Arg::Str("padding-padding-padding-padding".into())], sc("w")), I::Null)), &["A", "B"]);
+            let prev = s.prev_bytes("A");
+            let res = pending_raw(&s, "A");
+            mk("A-results-with-failure", s, "A", prev, vec![], res)
+        }
         // the very first run of a particle: nothing but the script
         "A-init" => {
             let s = Scen::new("v6", two_branch_script(), &["A", "B"]);
@@ -115,7 +122,7 @@ fn victim_inner(name: &str) -> Option<Victim> {
     }
 }
 
-pub const VICTIMS: [&str; 6] = ["B-merges-A", "B-fresh", "A-merges-B", "B-merges-A-with-results", "A-results-only", "A-init"];
+pub const VICTIMS: [&str; 7] = ["B-merges-A", "B-fresh", "A-merges-B", "B-merges-A-with-results", "A-results-only", "A-results-with-failure", "A-init"];
 
 impl Victim {
     pub fn run(&self, prev: &[u8], cur: &[u8], limits: &Limits) -> Result<air_interpreter_interface::InterpreterOutcome, String> {
